@@ -647,11 +647,13 @@ class PixelAlgorithms(AccessorBase):
             coords = {k: c for k, c in xx.coords.items() if k != "time"}
             return xarray.DataArray(data=data, dims=xx.dims[1:], coords=coords)
 
+        # nodata may be None (float data with NaN): hand it over as keyword,
+        # as a positional argument dask would turn it into an object array
         return xarray.apply_ufunc(
             ops.autocorr,
             xx,
-            nodata,
-            input_core_dims=[["time"], []],
+            kwargs={"nodata": nodata},
+            input_core_dims=[["time"]],
             dask="parallelized",
             output_dtypes=["float32"],
         )
